@@ -5,8 +5,26 @@ use proc_macro::token_stream::IntoIter as TSIterator;
 
 use crate::{utils::Error, Inputs, Pattern};
 
+// Macro parameters (eg: `$p:pat`) are wrapped in none-delimited groups,
+// this flattens those groups so that a `"a" | "b"` pattern
+// passed through a `$p:pat` parameter is parsed as multiple alternatives.
+fn flatten_none_groups(ts: TokenStream) -> TokenStream {
+    let mut out = TokenStream::new();
+
+    for tt in ts {
+        match tt {
+            TokenTree::Group(group) if group.delimiter() == Delimiter::None => {
+                out.extend(flatten_none_groups(group.stream()));
+            }
+            tt => out.extend(std::iter::once(tt)),
+        }
+    }
+
+    out
+}
+
 pub(crate) fn parse_inputs(ts: TokenStream) -> Result<Inputs, Error> {
-    let iter = &mut ts.into_iter();
+    let iter = &mut flatten_none_groups(ts).into_iter();
 
     let rem_ident = match iter.next() {
         Some(TokenTree::Ident(ident)) => ident,
